@@ -1,4 +1,5 @@
 import PyramidModel.Lemmas.Static
+import PyramidModel.Lemmas.StaticUrl
 import PyramidModel.Gen.C16
 /-!
 # C16 — static views serve only files inside their root
@@ -18,6 +19,8 @@ Reading guide
   the view *is* the declarative spec (`specView`) on every tuple, both mountings answer every raw path by what its
   normalised form designates, and the view never opens anything but a regular file; the witnesses of the two repaired
   defects (F-C16a, F-C16b) are proved to behave as the property demands.
+* §5 (second half: configuration and URL side, `StaticUrl.lean`) registrations, `static_url`, cache busters and the
+  way back through the serving model of §3.
 * §4 encoded variants: what is served is a configured variant of the target, accepted by the client, labelled
   with its encoding, smallest among the acceptable ones; without `Accept-Encoding` only the identity file.
 -/
@@ -433,3 +436,241 @@ example : findBestMatch (some ["gzip"]) (possibleFiles exFs exView "/srv/www/a.t
   findBestMatch none (possibleFiles exFs exView "/srv/www/a.txt".toList) = some ⟨"/srv/www/a.txt".toList, none⟩ := by decide
 
 end Pyr.Static
+
+/-! ## 5. configuration and URL side: registrations, `static_url`, cache busters, and the way back
+
+Property (stated in notes/C16.md in the style of properties.jsonl): for every list of static registrations and every
+asset spec under one of them, `static_url` yields a URL that, requested from the same application, is served by that
+static view with the file the spec designates; it picks the first matching registration at a path boundary; a cache
+buster only alters the URL in its documented place. -/
+namespace Pyr.StaticUrl
+
+open Pyr Pyr.Url Pyr.Pct
+open Pyr.Trav (Seg Bytes splitOn joinWith utf8Enc splitPathInfo)
+open Pyr.Static (Fs View WfView RootIsDir Enc specView serveSub rootOf below Proper)
+
+/-- generated obligation: `StaticURLInfo.registrations` after the probed `add_static_view` sequences (every name
+shape × every spec shape, and re-adds) is what `registerAll` says -/
+theorem gen_register_probe :
+    Pyr.Static.Gen.registerProbe.length ≥ 25 ∧
+    ∀ e ∈ Pyr.Static.Gen.registerProbe, regTuples (registerAll none e.1) = e.2 := by decide +kernel
+
+/-- generated obligation: `StaticURLInfo.cache_busters` after EVERY sequence of at most three `add_cache_buster`
+calls over three specs × {implicit, explicit} (259 sequences) is what `addCacheBuster` says -/
+theorem gen_buster_order_probe :
+    Pyr.Static.Gen.busterOrderProbe.length = 259 ∧
+    ∀ e ∈ Pyr.Static.Gen.busterOrderProbe, bustersOf e.1 = e.2 := by decide +kernel
+
+/-- generated obligation: `request.static_path` on the probed configurations × assets × `_query` arguments (local and
+external names, re-added name, query-string and manifest busters, explicit flag, boundary sibling) is what
+`generate` says -/
+theorem gen_generate_probe :
+    Pyr.Static.Gen.generateProbe.length ≥ 90 ∧
+    ∀ e ∈ Pyr.Static.Gen.generateProbe, probeGenerate e.1 e.2.1 e.2.2.1 e.2.2.2.1 = e.2.2.2.2 := by decide +kernel
+
+/-- Whatever the sequence of `add_static_view` calls: every registration's spec ends with a separator (`/`, or the
+`:` of a whole-package spec) and every external base URL with `/`. -/
+theorem registrations_terminated (pfx : Option Text) (adds : List (Text × Text)) :
+    ∀ r ∈ registerAll pfx adds, Terminated r.spec ∧ ∀ u, r.url = some u → endsWithC u '/' = true :=
+  registerAll_ok pfx adds
+
+/-- **First match, at a path boundary.**  `generate` answers from the FIRST registration whose spec is a prefix of
+the asset spec (ValueError exactly when there is none); the asset spec is then that spec followed by the subpath. -/
+theorem generate_picks_first (e : Env) (routes : Routes) (regs : List StaticReg) (bs : List BusterReg)
+    (rawOf : Text → Option Text) (path : Text) (o : Ovr) (d : Bool) :
+    (generate e routes regs bs rawOf path o d = .error .noStatic → ∀ r ∈ regs, r.spec.isPrefixOf path = false ∨
+      ∃ r' ∈ regs, r'.spec.isPrefixOf path = true) ∧
+    ((∀ r ∈ regs, r.spec.isPrefixOf path = false) → generate e routes regs bs rawOf path o d = .error .noStatic) ∧
+    (∀ r, regs.find? (fun r => r.spec.isPrefixOf path) = some r →
+      ∃ pre post, regs = pre ++ r :: post ∧ (∀ x ∈ pre, x.spec.isPrefixOf path = false) ∧
+        path = r.spec ++ path.drop r.spec.length) := by
+  refine ⟨fun _ r hr => ?_, fun h => ?_, fun r hr => ?_⟩
+  · by_cases hp : r.spec.isPrefixOf path = true
+    · exact .inr ⟨r, hr, hp⟩
+    · exact .inl (Bool.eq_false_iff.mpr hp)
+  · unfold generate
+    have : regs.find? (fun r => r.spec.isPrefixOf path) = none := by
+      rw [List.find?_eq_none]; intro x hx; simp [h x hx]
+    rw [this]
+  · obtain ⟨hp, pre, post, e1, hno⟩ := List.find?_eq_some_iff_append.mp hr
+    refine ⟨pre, post, e1, fun x hx => by simpa using hno x hx, ?_⟩
+    obtain ⟨t, ht⟩ := List.isPrefixOf_iff_prefix.mp hp
+    rw [← ht, List.drop_left' rfl]
+
+/-- A registered directory never claims its siblings: `…/static/` is not a prefix of `…/static2/x`, `…/static.gz`. -/
+theorem boundary_safe (d rest : Text) (c : Char) (hc : c ≠ '/') :
+    (normSpec (d ++ ['/'])).isPrefixOf (d ++ c :: rest) = false ∧ (d ++ ['/']).isPrefixOf (d ++ c :: rest) = false := by
+  have h2 : (d ++ ['/']).isPrefixOf (d ++ c :: rest) = false := by
+    apply Bool.eq_false_iff.mpr
+    intro h
+    have := List.isPrefixOf_iff_prefix.mp h
+    rw [List.prefix_append_right_inj] at this
+    obtain ⟨t, ht⟩ := this
+    simp only [List.cons_append, List.nil_append, List.cons.injEq] at ht
+    exact hc ht.1.symm
+  have h1 : normSpec (d ++ ['/']) = d ++ ['/'] := by simp [normSpec, endsWithC]
+  exact ⟨by rw [h1]; exact h2, h2⟩
+
+example : (normSpec "pkg:static".toList).isPrefixOf "pkg:static2/x".toList = false ∧
+    (normSpec "pkg:static".toList).isPrefixOf "pkg:static/x".toList = true := by decide
+
+/-- **Re-adding an external name replaces it**: the URL column of the new list contains the name exactly once
+(whatever duplicates there were, one is removed and one is added), at the end, with the new spec; the other
+external registrations are untouched in number. -/
+theorem register_replaces_external (pfx : Option Text) (regs : List StaticReg) (name spec : Text)
+    (hu : isUrlName (normName name) = some true) :
+    countUrl (normName name) (register pfx regs name spec) = countUrl (normName name) regs - 1 + 1 ∧
+    (register pfx regs name spec).getLast? = some ⟨some (normName name), normSpec spec, []⟩ ∧
+    ∀ w, w ≠ normName name → countUrl w (register pfx regs name spec) = countUrl w regs := by
+  unfold register
+  simp only [hu, Option.getD_some, if_true]
+  refine ⟨?_, by simp, fun w hw => ?_⟩
+  · unfold countUrl
+    rw [List.countP_append]
+    have := countUrl_eraseFirst (normName name) regs
+    unfold countUrl at this
+    rw [this]; simp
+  · unfold countUrl
+    rw [List.countP_append]
+    have := countUrl_eraseFirst_ne (normName name) w hw regs
+    unfold countUrl at this
+    rw [this]
+    simp [hw.symm]
+
+/-- PARTIAL — "re-adding the same name replaces" holds for external names only.  For a LOCAL name the URL column is
+`None`, the comparison `name in names` never succeeds and both registrations stay (finding F-C16c): the asset of
+the superseded spec still gets a URL — of the route that now serves the new directory. -/
+theorem register_local_name_accumulates :
+    let adds : List (Text × Text) := [("static".toList, "pkg:old".toList), ("static".toList, "pkg:new".toList)]
+    (registerAll none adds).length = 2 ∧ (routesOf none adds).length = 1 ∧
+    (generate ⟨"http".toList, none, "h".toList, "80".toList, []⟩ (routesOf none adds) (registerAll none adds) []
+      (fun _ => none) "pkg:old/x.css".toList { appUrl := some [] } false).toOption = some "/static/x.css".toList := by decide
+
+/-- Without cache busters `generate` is C17's `staticUrl` (so C17's grammar and query round-trip theorems apply). -/
+theorem generate_without_busters (e : Env) (routes : Routes) (regs : List StaticReg) (rawOf : Text → Option Text)
+    (path : Text) (o : Ovr) (d : Bool) :
+    generate e routes regs [] rawOf path o d = Pyr.Url.staticUrl e routes regs path o := by
+  unfold generate urlOf
+  conv => rhs; unfold Pyr.Url.staticUrl
+  cases regs.find? (fun r => r.spec.isPrefixOf path) with
+  | none => rfl
+  | some r => simp [Pyr.Url.staticUrl]
+
+/-- **A cache buster alters the URL only in its documented place.**  With the registration `r` that is picked and
+`sub` the remainder: no matching buster ⇒ the URL of `(r, sub)` with the caller's query; a manifest buster ⇒ the
+URL of `(r, manifest[sub] or sub)` with the caller's query untouched; a query-string buster ⇒ the URL of the
+untouched `(r, sub)` with the token set in the caller's query (appended; for a dict: assigned).  Scheme, host,
+route, anchor are those of the unbusted call in every case. -/
+theorem cache_buster_documented_place (e : Env) (routes : Routes) (regs : List StaticReg) (bs : List BusterReg)
+    (rawOf : Text → Option Text) (path : Text) (o : Ovr) (d : Bool) (r : StaticReg)
+    (hr : regs.find? (fun r => r.spec.isPrefixOf path) = some r) (hbs : bs ≠ []) :
+    let sub := path.drop r.spec.length
+    let chosen := bs.reverse.find? fun b =>
+      if b.explicit then b.spec.isPrefixOf ((rawOf path).getD path) else b.spec.isPrefixOf path
+    generate e routes regs bs rawOf path o d =
+      match chosen with
+      | none => urlOf e routes r sub o
+      | some b =>
+        match b.cb with
+        | .manifest m => urlOf e routes r ((m.lookup sub).getD sub) o
+        | .query p t =>
+          match o.query with
+          | .absent => urlOf e routes r sub { o with query := .pairs [(p, .one t)] }
+          | .pairs ps truthy =>
+            urlOf e routes r sub { o with query := .pairs (if d then dictSet ps p (.one t) else ps ++ [(p, .one t)]) truthy }
+          | _ => .error .outside := by
+  intro sub chosen
+  unfold generate
+  simp only [hr, hbs, if_false]
+  unfold bustAssetPath
+  simp only
+  cases hc : bs.reverse.find? (fun b =>
+      if b.explicit then b.spec.isPrefixOf ((rawOf path).getD path) else b.spec.isPrefixOf path) with
+  | none => simp [chosen, hc, sub]
+  | some b =>
+    simp only [chosen, hc]
+    unfold applyBuster
+    cases b.cb with
+    | manifest m => simp [sub]
+    | query p t =>
+      cases hq : o.query with
+      | absent => simp [sub]
+      | pairs ps truthy => simp [sub]
+      | null => simp
+      | str q => simp
+
+/-- Which buster: the LAST matching one of the list (explicit ones matched on the overriding asset's spec). -/
+theorem buster_choice (bs : List BusterReg) (match_ : BusterReg → Bool) (b : BusterReg)
+    (h : bs.reverse.find? match_ = some b) :
+    match_ b = true ∧ ∃ pre post, bs = pre ++ b :: post ∧ ∀ x ∈ post, match_ x = false :=
+  find?_reverse_split match_ bs b h
+
+/-- … and the list is kept with the non-explicit busters first and, within each kind, shorter specs first, so the
+last matching one is the most specific explicit one if any, else the most specific non-explicit one (checked here
+on the insertion orders of three busters; the general invariant is tied by the correspondence run). -/
+theorem buster_order_examples :
+    let q := Buster.query ['x'] ['t']
+    let specs := fun (bs : List BusterReg) => bs.map fun b => (b.spec, b.explicit)
+    specs (addCacheBuster (addCacheBuster (addCacheBuster [] "p:a/b".toList q false) "p:a".toList q true) "p:a".toList q false)
+      = [("p:a/".toList, false), ("p:a/b/".toList, false), ("p:a/".toList, true)] ∧
+    specs (addCacheBuster (addCacheBuster (addCacheBuster [] "p:a".toList q true) "p:a/b".toList q true) "p:a".toList q false)
+      = [("p:a/".toList, false), ("p:a/".toList, true), ("p:a/b/".toList, true)] ∧
+    specs (addCacheBuster (addCacheBuster [] "p:a".toList q false) "p:a/".toList (Buster.manifest []) false)
+      = [("p:a/".toList, false)] := by decide
+
+/-- **The way back.**  For a route-backed registration whose route is `<lit>*subpath`: the generated path is the
+quoted literal followed by the quoted subpath; a WSGI server receives it as the UTF-8 bytes of `lit ++ sub`; the
+application answers that request with what the serving model's spec gives for the normalised subpath — under the
+view mounted at `lit`. -/
+theorem static_url_way_back (fs : Fs) (v : View) (hw : WfView v) (hr : RootIsDir fs v) (ae : Option (List Enc))
+    (lit sub : Text) :
+    routeGenerate [(subpathName, .one sub)] [.lit lit, .star subpathName]
+      = .ok (quote Gen.routeLitSafe lit ++ quote Gen.routeValSafe sub) ∧
+    requestBytes (quote Gen.routeLitSafe lit ++ quote Gen.routeValSafe sub) = some (utf8Enc (lit ++ sub)) ∧
+    serveSub fs v ae lit (utf8Enc (lit ++ sub)) =
+      (if lit ++ sub = [] then specView fs v ae false (splitPathInfo ['/'])    -- cannot happen for a real route
+       else specView fs v ae (Pyr.Static.endsWithSlash (lit ++ sub)) (splitPathInfo sub)) := by
+  refine ⟨?_, requestBytes_quote_quote _ _ (by decide) (by decide) lit sub, ?_⟩
+  · simp [routeGenerate, genPiece, List.lookup]
+  · rw [Pyr.Static.sub_mount_serves_designated fs v hw hr ae lit]
+    have hd : Pyr.Trav.decodePathInfo (utf8Enc (lit ++ sub)) = some (lit ++ sub) := Pyr.Pct.utf8_roundtrip _
+    rw [hd]
+    by_cases hne : lit ++ sub = []
+    · have hl : lit = [] := (List.append_eq_nil_iff.mp hne).1
+      have hs : sub = [] := (List.append_eq_nil_iff.mp hne).2
+      subst hl; subst hs
+      simp [Pyr.Static.routeRemainder, Pyr.Static.endsWithSlash]
+    · simp only [hne, if_false]
+      rw [routeRemainder_append]
+
+/-- … and when every segment of the subpath is a proper file-name component (no empty, `.`, `..`, NUL), what is
+designated is literally `root/<subpath>`: the file the asset spec names. -/
+theorem static_url_designates_spec_file (fs : Fs) (v : View) (hw : WfView v) (hr : RootIsDir fs v)
+    (ae : Option (List Enc)) (lit sub : Text) (hl : lit ≠ []) (hp : ∀ s ∈ splitOn '/' sub, Proper s) :
+    serveSub fs v ae lit (utf8Enc (lit ++ sub)) =
+      specView fs v ae (Pyr.Static.endsWithSlash (lit ++ sub)) (splitOn '/' sub) ∧
+    below (rootOf v) (splitOn '/' sub) = rootOf v ++ '/' :: sub := by
+  have h := (static_url_way_back fs v hw hr ae lit sub).2.2
+  have hne : lit ++ sub ≠ [] := by simp [hl]
+  simp only [hne, if_false] at h
+  rw [h, splitPathInfo_proper sub hp]
+  refine ⟨rfl, ?_⟩
+  rw [Pyr.Static.below_eq _ _ (Pyr.Trav.splitOn_ne_nil _ _), Pyr.Static.joinWith_splitOn]
+
+/-- PARTIAL — the way back assumes that the request reaches the view mounted at `lit`.  When an EARLIER static view
+is mounted at a prefix of `lit` its route matches first (finding F-C16d): -/
+theorem earlier_prefix_route_captures :
+    let adds : List (Text × Text) := [("a".toList, "/srv/one".toList), ("a/b".toList, "/srv/two".toList)]
+    (generate ⟨"http".toList, none, "h".toList, "80".toList, []⟩ (routesOf none adds) (registerAll none adds) []
+      (fun _ => none) "/srv/two/x.css".toList { appUrl := some [] } false).toOption = some "/a/b/x.css".toList ∧
+    Pyr.Static.routeRemainder "/a/".toList "/a/b/x.css".toList = some "b/x.css".toList := by decide
+
+/-- the excluded point of `cache_buster_documented_place` (finding F-C16e): a string `_query` is outside what a
+query-string buster can extend -/
+theorem string_query_with_query_buster_outside :
+    (match applyBuster (.query ['x'] ['t']) "f.css".toList (.str "a=1".toList) false with
+     | .error .outside => true
+     | _ => false) = true := by decide
+
+end Pyr.StaticUrl
+
